@@ -13,7 +13,8 @@ func init() { register("C11", "other", checkC11) }
 
 func checkC11(w *World, r *Result) {
 	r.Explanation = "Decides structural necessary conditions: AGR-C11c candidates are the defined (non-alias) named types of the package scope in scope.Names() order; AGR-C11f a candidate is a member exactly when it is not an interface and types.Implements(member, itf) holds, with itf the candidate union's own underlying interface, members kept in candidate order, and only empty member lists are dropped; AGR-C11u the Union node takes its members, in order, once each, from the table entry of its own name; AGR-C11a whenever createType replaces its key (alias resolution) it consults the memo under the new key before building a node, so one Go type has one node and the Implements pass (which ranges over the memo) reaches every node that parents reference; AGR-C11i Implements is computed for every struct of the memo after all types are analysed, by identity of *types.Named against the same union table, and sorted (ORD-1). Does not decide: exactness against method sets (go/types' Implements), nor 'each once' across packages with homonym types beyond identity comparison."
-	r.Rules = []string{"AGR-C11c candidates", "AGR-C11f member filter", "AGR-C11u union node", "AGR-C11a memo key", "AGR-C11i implements", "ORD-1 (merge of the per-package tables)", "PKG-ID"}
+	r.Rules = []string{"AGR-C11c candidates", "AGR-C11f member filter", "AGR-C11u union node", "AGR-C11a memo key", "AGR-C11i implements", "ORD-1 (merge of the per-package tables)", "PKG-ID", "ALIAS-APPEND"}
+	aliasAppendRule(w, r, func(rel string) bool { return rel == "analysis" })
 	checkCandidates(w, r)
 	checkMemberFilter(w, r)
 	checkUnionNode(w, r)
